@@ -53,3 +53,47 @@ pub fn judge(target: &str, data: &[u8]) -> Option<Verdict> {
         _ => None,
     }
 }
+
+/// inputs taken from the repository's own tests
+pub const REPO_TEST_INPUTS: [&str; 34] = [
+    "-amin 44", "-true", "-false", "-amin", "-amin test", "-depth", "-maxdepth -44", "-mindepth -44", "! -true", "-true -o -false", "-true -a -false", "-true -false",
+    "-true -a -false -o -name test", "-true -o -false -a -name test", "-true -a (-false -o -name test)", "-true -a ! -false", "! -true -o -false", "! ( -true -o -false )",
+    "-perm 667", "-perm -244", "-perm a=x", "-perm u=w", "-perm a+x", "-perm g+w", "-perm a-x", "-perm ug-rw", "-perm /u+w", "-print", "-print0", "-fprint filelist.out",
+    "-printf \"%p,%U,%G,%m,%s,%A@,%C@,%T@,%{projid},%{fid}\\n\"", "-fprintf user_files.txt \"%p,%U,%{fid}\\n\"", "! -atime 77 ( -name test )", "-anerr param -name test",
+];
+
+pub fn make_corpora(seed: u64) -> i32 {
+    use crate::util::{stable_hash, verif_dir};
+    let write = |target: &str, items: Vec<Vec<u8>>| {
+        let dir = format!("{}/corpus/{target}", verif_dir());
+        let _ = std::fs::remove_dir_all(&dir);
+        let _ = std::fs::create_dir_all(&dir);
+        for it in items {
+            let _ = std::fs::write(format!("{dir}/{:016x}", stable_hash(&it)), it);
+        }
+    };
+    let mut total: Vec<Vec<u8>> = REPO_TEST_INPUTS.iter().map(|s| s.as_bytes().to_vec()).collect();
+    for t in crate::corpus::grammar_texts(seed, 160) {
+        if t.len() <= 300 {
+            total.push(t.into_bytes());
+        }
+    }
+    for t in crate::corpus::numeric_texts().into_iter().step_by(97).chain(crate::corpus::nesting_texts().into_iter().filter(|t| t.len() < 400)) {
+        total.push(t.into_bytes());
+    }
+    write("total", total);
+    let mut fmts: Vec<Vec<u8>> = crate::checks::c14::documented_elements().into_iter().map(|s| s.into_bytes()).collect();
+    for t in crate::util::sample_values(seed, "corpus-fmtdiff", 0, 120, &crate::checks::c14::gen_format()) {
+        if !t.contains('\'') {
+            fmts.push(t.into_bytes());
+        }
+    }
+    write("fmtdiff", fmts);
+    let mut gr: Vec<Vec<u8>> = vec![vec![8], vec![2, 8], vec![0, 8, 1], vec![8, 4, 9, 6, 10], vec![8, 3, 9], vec![0, 0, 2, 8, 1, 5, 9, 1, 7, 10], vec![8, 8, 8], vec![8, 6], vec![1], vec![0, 1]];
+    for (i, t) in crate::util::sample_values(seed, "corpus-grammar-bytes", 0, 60, &proptest::collection::vec(0u8..11, 1..24)).into_iter().enumerate() {
+        let _ = i;
+        gr.push(t);
+    }
+    write("grammar", gr);
+    0
+}
